@@ -147,7 +147,7 @@ def showYield (o : Obj) : String :=
 def fsOpName : FsOp → String
   | .createTmp => "createTmp" | .writeTmp => "writeTmp" | .renameTmpToPack => "renameTmpToPack"
   | .openIdxLock => "openIdxLock" | .renameIdxLock => "renameIdxLock" | .removePack => "removePack"
-  | .removeIdx => "removeIdx" | .removeTmp => "removeTmp"
+  | .removeIdx => "removeIdx" | .removeTmp => "removeTmp" | .abortIdxLock => "abortIdxLock"
 
 def parseIdx (s : String) : Option (List (Bytes × Nat)) :=
   (splitList s).mapM fun t =>
